@@ -29,7 +29,7 @@ type c02Case struct {
 func init() {
 	engine.Register(&engine.Check{
 		ID: "C02", Level: "model_checking",
-		Rule:   "BFS over operation histories (depth <=5 quick, <=6 thorough) on real Polygon/MultiPoint/MultiLineString/MultiPolygon/GeometryCollection objects; alphabet = Push(part) for a per-type part menu incl. empty parts, parts with empty sub-parts and the receiver's own part accessors (storage aliasing), Push(wrong-layout part, same and different stride), for polygons a Push while the polygon is lent to a MultiPolygon whose accessor result is pushed to as well (either order), Reverse, Swap with a second geometry, g=g.Clone() keeping both sides live with their own models, switching between the two sides; start states: empty and three parts already pushed, for collections variadic Push with one bad member and SetLayout; invariants evaluated in every state against a list-of-parts model; states deduplicated on the full observable state incl. capacity",
+		Rule:   "BFS over operation histories (depth <=5 quick, <=6 thorough) on real Polygon/MultiPoint/MultiLineString/MultiPolygon/GeometryCollection objects; alphabet = Push(part) for a per-type part menu incl. empty parts, parts with empty sub-parts and the receiver's own part accessors (storage aliasing), Push(wrong-layout part, same and different stride), for polygons a Push while the polygon is lent to a MultiPolygon whose accessor result is pushed to as well (either order), Reverse, Swap with a second geometry, g=g.Clone() keeping both sides live with their own models, switching between the two sides; start states: empty and three parts already pushed, for collections variadic Push with one bad member, Push of a spread slice that the caller overwrites afterwards, and SetLayout; invariants evaluated in every state against a list-of-parts model; states deduplicated on the full observable state incl. capacity",
 		Run:    c02Run,
 		Replay: func(c *engine.Ctx, kind string, raw json.RawMessage) { c02Exec(c, decodeCase[c02Case](raw), nil) },
 		Assumptions: []string{
@@ -480,6 +480,31 @@ func c02Alphabet(k ref.Kind, l geom.Layout) []c02Op {
 		}
 		pushModel(s, members[0])
 		pushModel(s, members[5])
+		return ""
+	}})
+	ops = append(ops, c02Op{"Push(spread slice of two XY members), then the caller reuses the slice", func(s *c02State) string {
+		gc := s.g.(*geom.GeometryCollection)
+		before := stateKey(gc)
+		parts := []geom.T{members[0].MustBuild(), members[1].MustBuild()}
+		err := gc.Push(parts...)
+		// the argument slice is the caller's: it is overwritten and emptied after the call
+		parts[0], parts[1] = members[5].MustBuild(), nil
+		parts = parts[:0]
+		_ = parts
+		if s.m.fixed != geom.NoLayout && s.m.fixed != geom.XY {
+			if err == nil {
+				return "Push of XY members into a " + s.m.fixed.String() + " collection succeeded"
+			}
+			if stateKey(gc) != before {
+				return "failed Push changed the receiver"
+			}
+			return ""
+		}
+		if err != nil {
+			return "Push failed: " + err.Error()
+		}
+		pushModel(s, members[0])
+		pushModel(s, members[1])
 		return ""
 	}})
 	for _, fl := range []geom.Layout{geom.XY, geom.XYZ, geom.NoLayout} {
